@@ -968,6 +968,13 @@ def stall_probe(ctx, quick, prop):
                     for hits in (list(range(1, 11)), [1, 3, 5, 7, 9, 11]):
                         cases.append(dict(sc, backend="cf", n_jobs=3, pre=rng.choice([2, 3, "2*n_jobs"]), N=max(sc["N"], 10),
                                           at=at, role=role, hits=hits, delay=0.03, watchdog=40))
+    # the backend refuses a batch at dispatch in the caller's thread (k-th submit of the initial dispatch raises):
+    # the call must end with an error and the object must heal -- no stall involved
+    for ra in ("list", "generator", "generator_unordered"):
+        for k in (1, 2, 3):
+            cases.append({"backend": "cf", "n_jobs": 2, "pre": rng.choice([3, "2*n_jobs", "all"]), "return_as": ra, "N": 7,
+                          "tfail": None, "ifail": None, "reuse": True, "submit_fail_at": k, "at": None, "role": "cb",
+                          "delay": 0, "watchdog": 40})
     nproc = max(1, min(common.NCPU - 2, 12))
     chunks = [cases[i::nproc] for i in range(nproc)]
     script = os.path.join(common.ROOT, "harness", "impl", "m1_stall.py")
@@ -1004,7 +1011,11 @@ def stall_probe(ctx, quick, prop):
                 tf = c["tfail"] if k == 0 else None
                 jf = c["ifail"] if k == 0 else None
                 exp = list(range(c["N"]))
-                if tf is None and jf is None:
+                if c.get("submit_fail_at") is not None and k == 0:
+                    if call["raised"] is None:
+                        what = what or "the backend refused batch %d at dispatch (submit raised in the caller's thread) but the call returned %s" % (
+                            c["submit_fail_at"], call["values"])
+                elif tf is None and jf is None:
                     vals = call["values"]
                     okv = vals is not None and (sorted(vals) if c["return_as"] == "generator_unordered" else vals) == exp
                     if not okv:
@@ -1018,9 +1029,11 @@ def stall_probe(ctx, quick, prop):
                         what = what or "call %d: the input failed but the call gave %s / raised %s" % (k + 1, call["values"], call["raised"])
             if what and prop in tags and nv < 2:
                 nv += 1
-                ctx.violation("%s backend, %s thread stalled %d ms before %s line %d: %s" % (
-                    "concurrent-callback (concurrent.futures)" if c.get("backend") == "cf" else "threading",
-                    "callback/worker" if c["role"] == "cb" else "caller", int(c["delay"] * 1000), c["at"][0], c["at"][1], what),
+                where = ("%s thread stalled %d ms before %s line %d" % (
+                    "callback/worker" if c["role"] == "cb" else "caller", int(c["delay"] * 1000), c["at"][0], c["at"][1])) if c.get("at") else \
+                    "submit() raising at batch %d in the caller's thread, return_as=%s pre_dispatch=%s" % (c["submit_fail_at"], c["return_as"], c["pre"])
+                ctx.violation("%s backend, %s: %s" % (
+                    "concurrent-callback (concurrent.futures)" if c.get("backend") == "cf" else "threading", where, what),
                     {"kind": "stall-probe", "case": c, "result": r}, True)
     return {"stall_points": len(pts), "stall_cases": len(cases), "stall_cases_that_reached_their_line": visited,
             "stalls_injected": stalled}
